@@ -31,7 +31,7 @@ pub async fn doc_with_methods() -> (CoreDocument, MemStorage, Vec<String>) {
   (doc, storage, frags)
 }
 
-fn options(mask: i64) -> JwsSignatureOptions {
+pub fn options(mask: i64) -> JwsSignatureOptions {
   let mut o = JwsSignatureOptions::new();
   if mask & 1 != 0 { o = o.attach_jwk_to_header(true); }
   if mask & 2 != 0 { o = o.b64(false); }
